@@ -247,21 +247,34 @@ package decode
 //@   ensures[!C02] len(b) >= 5 && b[len(b)-1] == 40 ==> result1 == 5
 //@   ensures[!C02] len(b) >= 9 && b[len(b)-1] == 41 ==> result1 == 9
 //@   ensures[!C02] !(len(b) >= 5 && b[len(b)-1] == 40) && !(len(b) >= 9 && b[len(b)-1] == 41) ==> result1 == 0 - 1
+//@   ensures[C10] len(b) >= 5 && b[len(b)-1] == 40 ==> result0 == f64of32(f32OfBits(be32(mem(b), hi(b) - 5)))
+//@   ensures[C10] len(b) >= 9 && b[len(b)-1] == 41 ==> result0 == f64OfBits(be64(mem(b), hi(b) - 9))
 
 //@ func DecodeFloat32
 //@   safety[C02]
 //@   let vs = valueSize(mem(b), lo(b), hi(b))
+//@   let t = b[len(b)-1]
+//@   let x32 = f32OfBits(be32(mem(b), hi(b) - 5))
+//@   let x64 = f64OfBits(be64(mem(b), hi(b) - 9))
 //@   ensures[C02] 0 <= result1 && result1 <= len(b)
 //@   ensures[C16] len(b) == 0 ==> result1 == 0 && result2 == nil
 //@   ensures[C13] len(b) > 0 && result2 == nil ==> result1 == vs
+//@   ensures[C10] len(b) >= 5 && t == 40 ==> result2 == nil && result1 == 5 && result0 == x32
+//@   ensures[C10] len(b) >= 9 && t == 41 && fitsF32(x64) ==> result2 == nil && result1 == 9 && result0 == f32of64(x64)
+//@   ensures[C10] len(b) >= 9 && t == 41 && !fitsF32(x64) ==> result2 != nil
+//@   ensures[C10] len(b) > 0 && !(len(b) >= 5 && t == 40) && !(len(b) >= 9 && t == 41) ==> result2 != nil
 
 //@ func DecodeFloat64
 //@   safety[C02]
 //@   let vs = valueSize(mem(b), lo(b), hi(b))
+//@   let t = b[len(b)-1]
 //@   ensures[C02] 0 <= result1 && result1 <= len(b)
 //@   ensures[C16] len(b) == 0 ==> result1 == 0 && result2 == nil
 //@   ensures[C13] len(b) > 0 && result2 == nil ==> result1 == vs
 //@   ensures[C13] len(b) > 0 && vs > 0 && (b[len(b)-1] == 40 || b[len(b)-1] == 41) ==> result2 == nil
+//@   ensures[C10] len(b) >= 5 && t == 40 ==> result2 == nil && result1 == 5 && result0 == f64of32(f32OfBits(be32(mem(b), hi(b) - 5)))
+//@   ensures[C10] len(b) >= 9 && t == 41 ==> result2 == nil && result1 == 9 && result0 == f64OfBits(be64(mem(b), hi(b) - 9))
+//@   ensures[C10] len(b) > 0 && !(len(b) >= 5 && t == 40) && !(len(b) >= 9 && t == 41) ==> result2 != nil
 
 // ---- list and message tables
 
